@@ -68,7 +68,9 @@ CHECKS = {
             "value v of depth <= 2) with the verdicts must/may and the static containment; each case is rendered for the pattern forms "
             "`='t`, `=('t)x`, typed tuple and partial patterns and run on the real code directly, tree-shaken (the quiv compile + run "
             "path) and as the last line of a session that merged 1-2 other generated programs; TLC (spec/TypesValTrace.tla) judges "
-            "SAME (one verdict in all configurations), ACC (accepted => v inhabits T), MEM (statically contained => accepted).",
+            "SAME (one verdict in all configurations), ACC (accepted => v inhabits T), MEM (statically contained => accepted). Process "
+            "values are rendered three ways (spawn result, `&.` in the entry function, `&.` in a helper); resource handles are tested "
+            "against \\File / \\Dir in one program and in sessions that mention other resource names before / after the handle is opened.",
             "Trusted: rendering of types/values to Quiver source and the projection of outcomes. Bounded: type graphs <= 3 nodes, values "
             "of depth <= 2, 2 tuple names / 2 labels.",
             "TLA+ type semantics; TLC-enumerated cases replayed into the implementation; verdicts validated by TLC"),
@@ -103,7 +105,9 @@ CHECKS = {
             "TailCall(false) at exactly 2 (no operand survives an iteration). Dynamic part: 59 tail-recursive shapes (^, ^f, ^~, bare ^ in nilary message-driven server loops, loop states rebuilt by spreads of union-typed sources, mutual "
             "recursion, tail calls inside nested blocks/branches/consequences, with and without a heap binary dropped per iteration) run "
             "on the real VM one instruction at a time at N=20 and 50N=1000; spec/VMTrace.tla validates both traces and spec/VMPeaks.tla "
-            "judges that peak frames/locals/stack are equal at N and 50N and the heap stays bounded.",
+            "judges that peak frames/locals/stack are equal at N and 50N and the heap stays bounded. Executor-level space around "
+            "selects (a stranded filter verdict or select result) is judged on the runtime engine's select scenarios under seeded "
+            "schedules by the monitor rule ParkedStackEmpty (a scripted process parks in a select and finishes with an empty operand stack).",
             "Trusted: as C07. The shapes are templates; iteration counts 20 and 1000.",
             "TLA+ abstract machine (TailCall height rule on all paths) + real VM traces at N and 50N validated and compared by TLC"),
     "C11": ("repl", "model_checking",
@@ -121,7 +125,8 @@ CHECKS = {
             "spec/Equality.tla defines structural equality SEq on abstract values and its laws (reflexive, symmetric, transitive, = "
             "identity of abstract values) are checked by TLC on a small universe; the engine enumerates pairs of construction paths "
             "(literal, builtin-computed heap rope vs constant, spread, generic function = different tuple ids, import, message, "
-            "separate REPL lines = separately merged programs, after other merges) of the same and of different abstract values and "
+            "separate REPL lines = separately merged programs, after other merges, inside a MODULE body evaluated by the synchronous "
+            "executor; closures over binaries and tuples; mixed label positions) of the same and of different abstract values and "
             "records the verdicts of pinned match / repeated binder / literal match, directly and through a union-typed function; "
             "spec/EqualityTrace.tla judges PathIndependent and VerdictIsStructural. Refs: the mechanism model mints refs per worker and "
             "TLC checks RefsUnique; the monitor checks that refs minted by different processes under 1-4 workers are pairwise distinct.",
@@ -134,7 +139,9 @@ CHECKS = {
             "close, handle sent in a message, captured by a spawn nested in a tuple, left in a mailbox, owner awaited or not); the "
             "real Environment runs the same scenarios against an instrumented in-memory EffectBackend and the TLA+ monitor keeps its "
             "own ownership map (as the property defines it) and judges every backend call: UseOnlyByOwner, NeverReachesBackend, "
-            "NoCloseWhileOwnerAlive, ClosedExactlyOnceAtExit.",
+            "NoCloseWhileOwnerAlive, ClosedExactlyOnceAtExit, OwnerCanUse; plus seeded random resource systems (open / use / close / send / "
+            "receive handles, refused uses, failures, two handles in one transfer, immediate and deferred I/O). Leaks are split by "
+            "history into the two pinned findings (owner's completion never reported; handle delivered to a finished process) and the rest.",
             RT_NOTE + " The backend is the harness's SimBackend (quiver-io's io_uring backend is not exercised).", RT_TECH),
     "C15": ("runtime", "model_checking",
             "Same engine on failure scenarios (failure before/while/after being awaited, awaiter that timed out, chains, two awaiters, "
